@@ -25,13 +25,15 @@ VERIF = os.path.dirname(os.path.dirname(os.path.abspath(__file__)))
 SCR = "/tmp/automut"
 
 CHECKS = {
-    "cmb_event.c": ["C01", "C04"], "cmi_hashheap.c": ["C02", "C01"], "cmb_process.c": ["C04", "C09", "C08"],
-    "cmb_resourceguard.c": ["C06", "C08", "C13"], "cmb_resource.c": ["C05", "C08", "C14"],
-    "cmb_resourcepool.c": ["C07", "C08", "C14"], "cmb_buffer.c": ["C11", "C08", "C14"],
-    "cmb_objectqueue.c": ["C12", "C08", "C14"], "cmb_priorityqueue.c": ["C12", "C08", "C14"], "cmb_condition.c": ["C13"],
+    "cmb_event.c": ["C01", "C04", "C10"], "cmi_hashheap.c": ["C02", "C01", "C10"],
+    "cmb_process.c": ["C04", "C09", "C08", "C10"],
+    "cmb_resourceguard.c": ["C06", "C08", "C13", "C10"], "cmb_resource.c": ["C05", "C08", "C14", "C10"],
+    "cmb_resourcepool.c": ["C07", "C08", "C14", "C10"], "cmb_buffer.c": ["C11", "C08", "C14", "C10"],
+    "cmb_objectqueue.c": ["C12", "C08", "C14", "C10"], "cmb_priorityqueue.c": ["C12", "C08", "C14", "C10"],
+    "cmb_condition.c": ["C13", "C10"],
     "cmb_datasummary.c": ["C17"], "cmb_wtdsummary.c": ["C17"], "cmb_dataset.c": ["C18", "C17"],
-    "cmb_timeseries.c": ["C18", "C14"], "cmb_random.c": ["C16", "C15"], "cimba.c": ["C19"],
-    "cmi_mempool.c": ["C20"], "cmi_coroutine.c": ["C03", "C09"], "cmi_holdable.c": ["C09"],
+    "cmb_timeseries.c": ["C18", "C14", "C17"], "cmb_random.c": ["C16", "C15"], "cimba.c": ["C19"],
+    "cmi_mempool.c": ["C20", "C10"], "cmi_coroutine.c": ["C03", "C09", "C10"], "cmi_holdable.c": ["C09"],
     "cmi_resourcebase.c": ["C14"],
 }
 SKIP_LINE = re.compile(r"cmb_assert|cmb_logger|cmi_logger|fprintf|printf|fputc|fflush|^\s*(/\*|\*|//)|#\s*(include|define|if|endif)")
